@@ -63,6 +63,7 @@ def stmts(limits):
     s['SIZE'] = op('SIZE')
     s['NOT'] = op('NOT')
     s['GETMSG'] = op('GET_MESSAGE') + b'\x00'
+    s['FILL'] = op('TRUE') * (min(mi, 300) + 1)
     s['LOOP{CALL}'] = op('DEF') + b'\x02' + blk(b'') + op('TRUE') + op('LOOP') + blk(op('CALL') + b'\x02')
     return s
 
@@ -180,6 +181,18 @@ def recursion_cases():
         for k in reversed(ch):
             inner = through(k, inner)
         out.append(('EVAL via ' + '>'.join(ch), P(inner) + op('DUP') + op('EVAL')))
+    # a committed script that spends itself again through OP_TAPROOT (its own bytes, the key and the root come from the cache)
+    import hashlib
+    from ref import refed
+    kpub = refed.public_key(b'\x07' * 32)
+    for ch in [()] + [(k,) for k in REC_KINDS[1:]]:
+        inner = op('READ_CACHE') + b'\x01s' + op('READ_CACHE') + b'\x01k' + op('READ_CACHE') + b'\x01r' + op('TAPROOT') + b'\x00'
+        for k in reversed(ch):
+            inner = through(k, inner)
+        tw = refed.clamp_scalar(hashlib.sha256(kpub + hashlib.sha256(inner).digest()).digest())
+        root = refed.add_enc(refed.scalarmult_base_noclamp(tw), kpub)
+        setup = P(inner) + op('WRITE_CACHE') + b'\x01s\x01' + P(kpub) + op('WRITE_CACHE') + b'\x01k\x01' + P(root) + op('WRITE_CACHE') + b'\x01r\x01'
+        out.append(('TAPROOT via self-spend' + ('>' + '>'.join(ch) if ch else ''), setup + inner))
     # re-entrant function: each activation first makes a self-call that returns at once (the callee's tape is the caller's
     # own, still running, tape), then the nesting self-call - the depth must still be bounded by the limit
     for ch in [()] + [(k,) for k in REC_KINDS[1:]]:
@@ -281,6 +294,34 @@ def family_later(ctx, case):
                 elif v is not want:
                     ctx.violation({**sig, 'invariant': 'authorization verdict under the limits'},
                                   f'{name} as script {pos} limits {limits}: run_auth_scripts {v!r}, reference {want}')
+    ctx.evaluations += n - 1
+
+
+def family_deprecated(ctx, name):
+    """the deprecated single-script entry point enforces the same three limits as run_auth_scripts"""
+    n = 0
+    for limits in [(2, 8, 3), (8, 2, 3), (3, 64, 2), (64, 3, 2), (1, 1, 1), (5, 1024, 128), (1024, 5, 128)]:
+        st = stmts(limits)
+        for tail in (b'', op('TRUE'), op('POP1') + bytes([min(limits[0], 255)]), op('POP1') + bytes([min(limits[0], 255)]) + op('TRUE')):
+            script = st[name] + tail
+            n += 1
+            ctx.state(('deprecated', name, limits, tail))
+            res = []
+            for fn, arg in ((F.run_auth_scripts, [script]), (F.run_auth_script, script)):
+                try:
+                    res.append(fn(arg, dict(CACHE0), {}, {}, limits[0], limits[1], limits[2]))
+                except BaseException as e:
+                    res.append(type(e).__name__)
+                try:
+                    res.append(fn(arg, dict(CACHE0), stack_max_items=limits[0], stack_max_item_size=limits[1], callstack_limit=limits[2]))
+                except BaseException as e:
+                    res.append(type(e).__name__)
+            ctx.ran(4)
+            ctx.trans(4)
+            ctx.outcome('dep:%s' % (res[0],))
+            if len(set(map(repr, res))) != 1:
+                ctx.violation({'family': 'A5 deprecated entry point', 'invariant': 'run_auth_script enforces the same limits as run_auth_scripts'},
+                              f'{name} + {tail.hex()} limits {limits}: run_auth_scripts pos/kw {res[0]!r}/{res[1]!r}, run_auth_script pos/kw {res[2]!r}/{res[3]!r}')
     ctx.evaluations += n - 1
 
 
@@ -474,6 +515,9 @@ def blocks(tier, seed):
         Block('A4_later_scripts', loop_depth_cases() + recursion_cases(), family_later,
               'never-ending loops / unbounded recursion as the 2nd and 3rd script of run_auth_scripts x call-stack limits 1,2,3,5,16 '
               'x two item-limit pairs', nshards=64),
+        Block('A5_deprecated_entry_point', list(NAMES), family_deprecated,
+              'every hungry statement (+ a stack filler) x 7 limit triples with max_items != max_item_size, positional and keyword limits, '
+              'run_auth_script vs run_auth_scripts', nshards=32),
         Block('B_truncations', pairs, family_b, 'every byte-prefix of every <=2 statement program', nshards=64),
         Block('B2_malformed_control', lambda s, n: spaces.malformed(2, 'full', s, n), family_b2,
               'every byte-prefix and single-byte perturbation of every full-grammar program with <= 2 nodes (taken and not-taken bodies)',
